@@ -43,7 +43,7 @@ m("collection-dedupe-type", "_snapshot/collection_value.py", "            if ite
 
 m("tq-final-quote-twice", "_utils.py", " and string[-1] != extra:", ":", ["C12"], "revert of the double-escape fix (needs both triple quotes + final quote)")
 # ---- C02
-m("return-old-under-fix", "_snapshot/generic_value.py", "        if flags.fix or flags.create or flags.update or self._old_value is undefined:", "        if self._old_value is undefined:", ["C02", "C07"], "comparison answers the old result under create/fix: test aborts at first failing snapshot (asserting style)")
+m("return-old-under-fix", "_snapshot/generic_value.py", "        if flags.fix or flags.create or flags.update or self._old_value is undefined:", "        if self._old_value is undefined:", ["C02"], "comparison answers the old result under create/fix: test aborts at first failing snapshot (asserting style)")
 m("addx-off", "_align.py", '            result += "x" * g[1]\n            i += 1', '            result += g[0] * g[1]', [], "never produce x (replace): equivalent w.r.t. the guaranteed set (informational)")
 m("dict-insert-pos", "_adapter/dict_adapter.py", "                insert_pos += 1", "                insert_pos += 2", ["C02"], "off-by-one insert position for dict entries")
 m("tuple1-comma", "_change.py", '        if elements == 1 and isinstance(parent, ast.Tuple):', '        if False:', ["C02"], "1-tuple loses its trailing comma after deletion")
@@ -62,7 +62,7 @@ m("create-alters-existing", "_snapshot/dict_value.py", "                yield fr
 
 
 # ---- C06
-m("return-new-always", "_snapshot/generic_value.py", "            return new_result\n        return result", "            return new_result\n        return new_result", ["C06", "C07"], "_return answers the new result without flags")
+m("return-new-always", "_snapshot/generic_value.py", "            return new_result\n        return result", "            return new_result\n        return new_result", ["C06"], "_return answers the new result without flags")
 m("min-cmp-inverted", "_snapshot/min_max_value.py", "    def cmp(a, b):\n        return a <= b", "    def cmp(a, b):\n        return a < b", ["C06", "C05"], "x >= snapshot(v) is strict")
 m("unmanaged-eq-wrapper", "_unmanaged.py", "        return self.value == other", "        return self.value is other or (self.value == other and not isinstance(other, (list, dict)))", ["C06"], "Unmanaged equality wrong for containers")
 m("typeerror-off", "_snapshot/generic_value.py", '    def __contains__(self, _other):\n        __tracebackhide__ = True\n        self._type_error("in")', '    def __contains__(self, _other):\n        return False', ["C06"], "`in` on a snapshot used with another op answers False")
@@ -154,6 +154,15 @@ m("minmax-cmp-raises-revert", "_snapshot/min_max_value.py", "            except 
 m("undefined-new-value-revert", "_snapshot/collection_value.py", "        if self._new_value is undefined:\n            # no value could be recorded (UsageError in clone)\n            return\n", "", ["C18", "C17"], "revert: Collection _get_changes with undefined new value")
 m("check-assert-removed", "_rewrite_code.py", "            assert lhs.range.end <= rhs.range.start, (lhs, rhs)", "            pass", ["C18"], "overlap assertion removed while inner/outer overlap is produced", more=[("_rewrite_code.py", "        if any(inside(new, other) for other in source.replacements):\n            return\n", ""), ("_rewrite_code.py", "        source.replacements = [\n            other for other in source.replacements if not inside(other, new)\n        ]\n", "")])
 m("delete-without-parent-group", "_change.py", "            if isinstance(node, ast.keyword):\n                node = node.parent", "            pass", ["C18", "C02"], "Delete of a keyword argument is grouped under the keyword node")
+
+
+# ---- C07
+m("missing-not-counted-eq", "_snapshot/eq_value.py", "        if self._old_value is undefined:\n            state().missing_values += 1\n", "", [], "empty == snapshots are not counted as missing")
+m("missing-not-counted-dict", "_snapshot/dict_value.py", "                state().missing_values += 1\n", "", [], "empty sub-snapshots are not counted as missing")
+m("counters-reset-late", "pytest_plugin.py", "    missing_values = state().missing_values\n    incorrect_values = state().incorrect_values", "    missing_values = state().missing_values\n    incorrect_values = state().incorrect_values if missing_values else 0", ["C07"], "incorrect values only fail the test together with missing ones")
+m("fail-only-both", "pytest_plugin.py", "    if incorrect_values != 0:", "    if incorrect_values > 1:", ["C07"], "a single incorrect comparison does not fail the test")
+m("f4-revert-collection", "_snapshot/collection_value.py", "        if self._old_value is undefined:\n            return True\n        else:", "        if self._old_value is undefined or state().update_flags.fix:\n            return True\n        else:", ["C07"], "revert: failing `in` under fix is green")
+m("xfail-inverted", "pytest_plugin.py", "    if xfail.args and xfail.args[0] == False:\n        return False", "    if xfail.args and xfail.args[0] == False:\n        return True", ["C04"], "xfail(False) tests run deactivated")
 
 
 def make_copy(mut):
